@@ -11,9 +11,16 @@
    (hence every row lies inside the call interval and none straddles a boundary), one input per
    dependency, same-kind inputs of equal length.  `calls_chain a calls b`: the first call starts at a,
    each call starts where the previous one ended, the last ends at b.
-   `delivered i calls`: the rows of dependency i handed to compute, in call order. *)
+   `delivered i calls`: the rows of dependency i handed to compute, in call order.
+   `adm R y y'`: y' is the latest time <= y that no row of R straddles.  `stair_ok Rs p y y'`: starting
+   from boundary y, within p comparisons the latest admissible times of all dependencies agree, at y'
+   (each disagreement restarts from their minimum: one step of the "staircase").
+   `pacemaker_chunks deps`: the chunks of the dependency iter picks as pacemaker (smallest first end,
+   first wins ties).  `max_passes` = the pass limit read from the source (ITER_MAX_PASSES). *)
 From SV Require Import Model.Rows Model.Chunk Model.PluginIter
-     Proof.PluginIterProof Proof.PluginIterRound Proof.PluginIterLoop Proof.PluginIterSafety.
+     Proof.PluginIterProof Proof.PluginIterRound Proof.PluginIterLoop Proof.PluginIterSafety
+     Proof.PluginIterStair Proof.PluginIterTotal Proof.PluginIterTotal2 Proof.PluginIterTotal3
+     Proof.PluginIterRefuted.
 
 Theorem C08_iter_calls_aligned : forall run sw a deps specs,
   deps <> [] -> Forall2 (dep_ok run a) deps specs ->
@@ -53,3 +60,46 @@ Theorem C08_iter_fuel_suffices : forall run sw a deps specs,
   snd (plugin_iter sw deps) <> Some E_ITER_FUEL.
 Proof. exact iter_fuel_suffices_thm. Qed.
 Print Assumptions C08_iter_fuel_suffices.
+
+(* iter_total_below_pass_limit, first half: the too-many-passes error arises only from a staircase
+   that does not settle within the pass limit at some pacemaker boundary *)
+Theorem C08_iter_too_many_passes_only_if_deep : forall run sw a deps specs,
+  deps <> [] -> Forall2 (dep_ok run a) deps specs ->
+  snd (plugin_iter sw deps) = Some E_TOO_MANY_PASSES ->
+  exists c, In c (pacemaker_chunks deps) /\
+            ~ exists y', stair_ok (map (fun d => srows (snd d)) deps) max_passes (cend c) y'.
+Proof. exact iter_too_many_passes_only_if_deep. Qed.
+Print Assumptions C08_iter_too_many_passes_only_if_deep.
+
+(* iter_total_below_pass_limit, second half: with a common end, one dependency per kind, no
+   zero-duration chunk kept back at the end and every pacemaker boundary's staircase settling within
+   the pass limit, iter ends normally, its calls tile [a, b] and every row of every dependency is
+   delivered (whatever save_when is) *)
+Theorem C08_iter_total_below_pass_limit : forall run sw a b deps specs,
+  deps <> [] -> Forall2 (dep_ok run a) deps specs ->
+  Forall (fun sp => db sp = b) specs ->
+  NoDup (map fst deps) ->
+  Forall (fun d => Forall (fun c => cend c < b) (removelast (snd d))) deps ->
+  (forall c, In c (pacemaker_chunks deps) ->
+             exists y', stair_ok (map (fun d => srows (snd d)) deps) max_passes (cend c) y') ->
+  snd (plugin_iter sw deps) = None /\
+  calls_chain a (fst (plugin_iter sw deps)) b /\
+  forall i d, nth_error deps i = Some d -> delivered i (fst (plugin_iter sw deps)) = srows (snd d).
+Proof. exact iter_total_below_pass_limit_thm. Qed.
+Print Assumptions C08_iter_total_below_pass_limit.
+
+(* Two strengthenings of the totality theorem that do NOT hold of the faithful model (and, replayed by
+   the harness, not of the implementation either: loud errors on law-abiding input). *)
+
+(* without the trailing-chunk hypothesis: B = [0,5) [5,5) raises "terminated without fetching last" *)
+Definition C08_full_iter_total_without_trailing_hyp : Prop := total_without_trailing_hyp.
+Theorem C08_iter_total_without_trailing_hyp_refuted : ~ C08_full_iter_total_without_trailing_hyp.
+Proof. exact total_without_trailing_hyp_refuted. Qed.
+Print Assumptions C08_iter_total_without_trailing_hyp_refuted.
+
+(* for two dependencies of one kind with identical rows: a zero-length row on a chunk boundary, stored
+   on different sides of it, raises "Cannot merge chunks with different number of items" *)
+Definition C08_full_iter_total_same_kind : Prop := total_same_kind.
+Theorem C08_iter_total_same_kind_refuted : ~ C08_full_iter_total_same_kind.
+Proof. exact total_same_kind_refuted. Qed.
+Print Assumptions C08_iter_total_same_kind_refuted.
